@@ -184,6 +184,7 @@ pub const TRIGGERS: &[(&str, Mode, LockOp, &str)] = &[
     ("EmmyLuaAnalysis", Mode::R, LockOp::Wait, "bg-waits-analysis-read"),
     ("EmmyLuaAnalysis", Mode::W, LockOp::Wait, "bg-waits-analysis-write"),
     ("EmmyLuaAnalysis", Mode::R, LockOp::Released, "bg-released-analysis-read"),
+    ("EmmyLuaAnalysis", Mode::R, LockOp::Acquired, "bg-acquired-analysis-read"),
 ];
 
 pub fn short_type(ty: &str) -> String {
